@@ -139,6 +139,8 @@ func newPkg(pkg *packages.Package, u *Universe) Package {
 				}
 
 				if named != nil {
+					// methods of a generic type are declared on an instantiated receiver
+					named = named.Origin()
 					p.methods[named] = append(p.methods[named], x)
 				}
 			} else if x.Parent() == nil || x.Parent() == pkgScope {
@@ -334,7 +336,7 @@ func (p *pkgInfo) Functions() map[string]*types.Func {
 }
 
 func (p *pkgInfo) MethodsOf(n *types.Named, ptr bool) []*types.Func {
-	funcs, _ := p.methods[n]
+	funcs, _ := p.methods[n.Origin()]
 
 	if ptr {
 		return funcs
